@@ -165,6 +165,13 @@ class LinkedList(Generic[T]):
         if values is not None:
             self.extend(values)
 
+    def __reduce__(self):
+        # type: () -> Any
+        # Copying and pickling rebuild the list from its values: the nodes link
+        # back with weak references, which the copy module would share with
+        # the original and which pickle cannot handle.
+        return (self.__class__, (list(self),))
+
     def __bool__(self):
         # type: () -> bool
         return self.head_node is not None
@@ -301,6 +308,12 @@ class OrderedSet(object):
             iterable = []
         for item in iterable:
             self.add(item)
+
+    def __reduce__(self):
+        # type: () -> Any
+        # Copying and pickling rebuild the set from its items (see
+        # LinkedList.__reduce__)
+        return (self.__class__, (list(self),))
 
     def add(self, item):
         # type: (str) -> None
